@@ -78,6 +78,14 @@ Proof.
   intros H ->. rewrite !(normalize_multi _ _ _ _ H). cbn [snd]. apply norm_generic_idempotent_iff.
 Qed.
 
+(* GR: the prefix of the country as given is trimmed before the country becomes EL, so with
+   country GR a leading EL is NOT removed (and normalisation is then not idempotent) *)
+Theorem normalize_GR_keeps_EL_prefix :
+  exists raw, has_prefix (bs "EL") (clean raw) = false /\
+    snd (normalize (bs "GR") (bs "EL" ++ raw)) <> snd (normalize (bs "GR") raw) /\
+    snd (normalize (bs "EL") (snd (normalize (bs "GR") (bs "EL" ++ raw)))) = snd (normalize (bs "GR") raw).
+Proof. exists (bs "064677095"). vm_compute. repeat split; discriminate. Qed.
+
 (* FR: the SIREN -> VAT number step does not disturb idempotence *)
 Lemma two_digits_are_digits k : 0 <= k < 100 -> forallb is_digit (two_digits k) = true.
 Proof.
